@@ -27,6 +27,8 @@ def gen(rng: random.Random, tier: str):
         for _i in range(N):
             c = rng.random()
             raw.append("nan" if c < 0.1 else "inf" if c < 0.14 else "-inf" if c < 0.18 else rng.choice([0.0, 1.0, 2.5, -1.0, 3.0, round(rng.uniform(-3, 5), 3)]))
+        mag = rng.choice([1.0, 1.0, 1e-18, 1e-9, 1e6])          # score magnitudes: probabilities, logits, counts …
+        raw = [x * mag if isinstance(x, float) else x for x in raw]
         nfin = sum(1 for x in raw if isinstance(x, float))
         yield {"scores": raw, "transform": rng.choice(["linear", None]), "cfg_n": rng.choice([None, -1, 0, 1, 3, 20]),
                "run_n": rng.choice([None, None, -1, 0, 2, 5, 50]), "us": [rng.uniform(1e-6, 1) for _ in range(nfin)],
@@ -99,6 +101,8 @@ def run(case: dict, lean: Lean) -> Outcome:
     if len(fin) < N: classes.append("non-finite scores present")
     if fin and max(fin) == min(fin): classes.append("degenerate range")
     if any(x < 0 for x in fin): classes.append("negative scores")
+    if fin and 0 < max(abs(x) for x in fin) < 1e-6: classes.append("tiny score magnitudes")
+    if fin and max(abs(x) for x in fin) > 1e5: classes.append("large score magnitudes")
     if case["run_n"] is not None and case["run_n"] >= 0: classes.append("run-time n")
     return Outcome(corr, spec and corr, tuple(classes), {"impl": real, "model": pos, "failed": failed}, None)
 
